@@ -59,6 +59,9 @@ func (c *Chooser) Deviate(n int) int { return c.next(n, true) }
 // Bool is Pick(2)==1.
 func (c *Chooser) Bool() bool { return c.Pick(2) == 1 }
 
+// Depth is the number of choice points passed so far in this execution.
+func (c *Chooser) Depth() int { return len(c.choices) }
+
 // Cost is the number of deviations taken so far in this execution.
 func (c *Chooser) Cost() int { return c.cost }
 
